@@ -1,3 +1,294 @@
-import Gzx.Proofs.AztecLink
+/-
+  C11 — Aztec: conforming symbols of every size decode to their text.
+  Property theorems only; helper lemmas live in Gzx/Proofs/Aztec*.lean.
+
+  Reference encoder (from ISO/IEC 24778): Gzx/Ref/Aztec.lean, Gzx/Ref/AztecLayout.lean.
+  Decoder model (aztec/decoder/decoder.go as coded): Gzx/Model/AztecDecoder.lean, AztecExtract.lean,
+  tied to /repo by the `c11` correspondence suite and by the per-run obligations of
+  Gzx/Obligations/C11.lean (the Go code tables = the reference tables).
+-/
+import Gzx.Proofs.AztecHL
+import Gzx.Proofs.AztecCompose
+import Gzx.Proofs.AztecLayout
+import Gzx.Proofs.AztecLayoutSizes1
+import Gzx.Proofs.AztecLayoutSizes2
+import Gzx.Proofs.AztecLayoutSizes3
+import Gzx.Proofs.AztecLayoutSizes4
+import Gzx.Proofs.AztecLayoutSizes5
+import Gzx.Proofs.AztecLayoutSizes6
+import Gzx.Proofs.AztecLayoutSizes7
+import Gzx.Proofs.AztecLayoutSizes8
 namespace Gzx.Properties.C11
+open Gzx Gzx.AztecDecoder Gzx.Ref.Aztec Gzx.AztecLink Gzx.AztecStuff Gzx.AztecHL
+
+/-- the 36 sizes of the standard: compact with 1-4 layers, full-range with 1-32 layers -/
+def ValidSize (compact : Bool) (layers : Nat) : Prop :=
+  1 ≤ layers ∧ layers ≤ (if compact then 4 else 32)
+
+/-- for each of the 36 sizes the decoder's read positions are exactly the reference layout's data
+    cells, each once, in stream order (36 per-size kernel evaluations, `decide +kernel`, in
+    Gzx/Proofs/AztecLayoutSizes*.lean) -/
+theorem layoutOK_all (compact : Bool) (layers : Nat) (h : ValidSize compact layers) :
+    AztecLayout.layoutOK compact layers = true := by
+  obtain ⟨h1, h2⟩ := h
+  cases compact with
+  | true =>
+    simp only [if_true] at h2
+    obtain rfl | rfl | rfl | rfl : layers = 1 ∨ layers = 2 ∨ layers = 3 ∨ layers = 4 := by omega
+    · exact AztecLayout.layoutOK_compact_1
+    · exact AztecLayout.layoutOK_compact_2
+    · exact AztecLayout.layoutOK_compact_3
+    · exact AztecLayout.layoutOK_compact_4
+  | false =>
+    simp only [Bool.false_eq_true, if_false] at h2
+    obtain rfl | rfl | rfl | rfl | rfl | rfl | rfl | rfl | rfl | rfl | rfl | rfl | rfl | rfl | rfl | rfl | rfl | rfl | rfl | rfl | rfl | rfl | rfl | rfl | rfl | rfl | rfl | rfl | rfl | rfl | rfl | rfl : layers = 1 ∨ layers = 2 ∨ layers = 3 ∨ layers = 4 ∨ layers = 5 ∨ layers = 6 ∨ layers = 7 ∨ layers = 8 ∨ layers = 9 ∨ layers = 10 ∨ layers = 11 ∨ layers = 12 ∨ layers = 13 ∨ layers = 14 ∨ layers = 15 ∨ layers = 16 ∨ layers = 17 ∨ layers = 18 ∨ layers = 19 ∨ layers = 20 ∨ layers = 21 ∨ layers = 22 ∨ layers = 23 ∨ layers = 24 ∨ layers = 25 ∨ layers = 26 ∨ layers = 27 ∨ layers = 28 ∨ layers = 29 ∨ layers = 30 ∨ layers = 31 ∨ layers = 32 := by omega
+    · exact AztecLayout.layoutOK_full_1
+    · exact AztecLayout.layoutOK_full_2
+    · exact AztecLayout.layoutOK_full_3
+    · exact AztecLayout.layoutOK_full_4
+    · exact AztecLayout.layoutOK_full_5
+    · exact AztecLayout.layoutOK_full_6
+    · exact AztecLayout.layoutOK_full_7
+    · exact AztecLayout.layoutOK_full_8
+    · exact AztecLayout.layoutOK_full_9
+    · exact AztecLayout.layoutOK_full_10
+    · exact AztecLayout.layoutOK_full_11
+    · exact AztecLayout.layoutOK_full_12
+    · exact AztecLayout.layoutOK_full_13
+    · exact AztecLayout.layoutOK_full_14
+    · exact AztecLayout.layoutOK_full_15
+    · exact AztecLayout.layoutOK_full_16
+    · exact AztecLayout.layoutOK_full_17
+    · exact AztecLayout.layoutOK_full_18
+    · exact AztecLayout.layoutOK_full_19
+    · exact AztecLayout.layoutOK_full_20
+    · exact AztecLayout.layoutOK_full_21
+    · exact AztecLayout.layoutOK_full_22
+    · exact AztecLayout.layoutOK_full_23
+    · exact AztecLayout.layoutOK_full_24
+    · exact AztecLayout.layoutOK_full_25
+    · exact AztecLayout.layoutOK_full_26
+    · exact AztecLayout.layoutOK_full_27
+    · exact AztecLayout.layoutOK_full_28
+    · exact AztecLayout.layoutOK_full_29
+    · exact AztecLayout.layoutOK_full_30
+    · exact AztecLayout.layoutOK_full_31
+    · exact AztecLayout.layoutOK_full_32
+
+/-- **Layout** (clause "reference grid ... layer spiral ... of every size"): for all 36 sizes and
+    every data-region bit stream, the decoder's `extractBits` reads back from the reference
+    layout exactly the stream that was laid out (whatever the mode message). -/
+theorem aztec_layout_inv (compact : Bool) (layers : Nat) (stream mode : List Bool)
+    (h : ValidSize compact layers) (hlen : stream.length = totalBits compact layers) :
+    extractBits (layout compact layers stream mode) layers compact = .ok stream :=
+  AztecLayout.extract_layout compact layers stream mode (layoutOK_all compact layers h) hlen
+
+/-- **Bit stuffing** (clause "bit-stuffed ... codewords"): for every bit string and every codeword
+    size b ≥ 2 (in particular 6, 8, 10, 12), the decoder's un-stuffing of the reference encoder's
+    stuffed codewords succeeds (no all-zero / all-one codeword) and returns the bits followed by
+    fewer than b pad ones. -/
+theorem stuff_unstuff_inv (b : Nat) (hb : 2 ≤ b) (bits : List Bool) :
+    ∃ k, k < b ∧
+      unstuff b ((stuffWords b bits).map fromBits) = .ok (bits ++ List.replicate k true) :=
+  AztecCompose.stuffWords_unstuff b hb bits
+
+/-- the four codeword sizes in use -/
+theorem stuff_unstuff_inv_sizes (layers : Nat) (bits : List Bool) :
+    ∃ k, k < 12 ∧
+      unstuff (codewordSize layers) ((stuffWords (wordSize layers) bits).map fromBits) =
+        .ok (bits ++ List.replicate k true) := by
+  have hb := AztecCompose.wordSize_bounds layers
+  obtain ⟨k, hk, h⟩ := stuff_unstuff_inv (wordSize layers) (by omega) bits
+  exact ⟨k, by omega, h⟩
+
+/-- **High-level decode** (clause "any mix of upper, lower, mixed, punctuation, digit and
+    binary-shift encodings"): for every script of the reference encoder — any sequence of literal
+    codes, latches, shifts, two-byte punctuation codes, binary shifts in short (1..31) and long
+    (32..2078 bytes) form, FLG(0) and FLG(1..6) with registered ECI values — that the five code
+    tables allow, `getEncodedData` run on the script's bits followed by up to 11 pad ones returns
+    exactly the script's content.  Parametric in the decoder tables `T`; the per-run obligation
+    `Obligations.C11.tables_eq_ref` supplies `T = refTables` for the tables /repo holds now. -/
+theorem aztec_highlevel_inv (T : Tables) (hT : T = refTables) (reg : Nat → Bool)
+    (ops : List Op) (bits : List Bool)
+    (henc : encodeScript .upper ops = some bits) (hok : scriptOK reg ops)
+    (k : Nat) (hk : k < 12) :
+    getEncodedData T reg (bits ++ List.replicate k true) =
+      .ok (segments ((scriptItems .upper ops).map toEvent)) := by
+  subst hT
+  exact AztecCompose.hld_script reg ops bits henc hok k hk
+
+/-- a script without FLG(n): only data bytes -/
+def PlainScript (ops : List Op) : Prop :=
+  ∀ op ∈ ops, match op with
+    | .flg _ _ | .shFlg _ _ => False
+    | _ => True
+
+theorem plain_items (ops : List Op) (h : PlainScript ops) :
+    ∀ m, ∃ bss : List (List Nat),
+      (scriptItems m ops).map toEvent = bss.map Event.bytes ∧
+      itemsBytes (scriptItems m ops) = bss.flatten := by
+  induction ops with
+  | nil => intro m; exact ⟨[], rfl, rfl⟩
+  | cons op ops ih =>
+    intro m
+    have h1 := h op (by simp)
+    obtain ⟨bss, h2, h3⟩ := ih (fun o ho => h o (by simp [ho])) (opMode m op)
+    have key : ∃ b1 : List (List Nat), (opItems m op).map toEvent = b1.map Event.bytes ∧
+        itemsBytes (opItems m op) = b1.flatten := by
+      cases op with
+      | ch c =>
+        simp only [opItems]
+        split
+        · rename_i bs _; exact ⟨[bs], rfl, by simp [itemsBytes]⟩
+        · exact ⟨[], rfl, rfl⟩
+      | latch _ => exact ⟨[], rfl, rfl⟩
+      | sh mt c =>
+        simp only [opItems]
+        split
+        · rename_i bs _; exact ⟨[bs], rfl, by simp [itemsBytes]⟩
+        · exact ⟨[], rfl, rfl⟩
+      | bin bs => exact ⟨[bs], rfl, by simp [opItems, itemsBytes]⟩
+      | flg _ _ => exact absurd h1 id
+      | shFlg _ _ => exact absurd h1 id
+    obtain ⟨b1, k1, k2⟩ := key
+    refine ⟨b1 ++ bss, ?_, ?_⟩
+    · simp only [scriptItems, List.map_append, k1, h2]
+    · simp only [scriptItems, itemsBytes, List.flatMap_append, List.flatten_append] at k2 h3 ⊢
+      rw [k2, h3]
+
+/-- for scripts of data bytes only, the decoded string is the ISO-8859-1 text itself
+    (as UTF-8, which is what Go's `string(result)` holds) -/
+theorem aztec_highlevel_text (T : Tables) (hT : T = refTables) (reg : Nat → Bool)
+    (ops : List Op) (bits : List Bool)
+    (henc : encodeScript .upper ops = some bits) (hplain : PlainScript ops)
+    (k : Nat) (hk : k < 12) :
+    ∃ segs, getEncodedData T reg (bits ++ List.replicate k true) = .ok segs ∧
+      renderDefault segs = some (latin1ToUtf8 (itemsBytes (scriptItems .upper ops))) := by
+  have hok : scriptOK reg ops := by
+    intro op hop
+    have := hplain op hop
+    cases op <;> first | trivial | exact absurd this id
+  refine ⟨_, aztec_highlevel_inv T hT reg ops bits henc hok k hk, ?_⟩
+  obtain ⟨bss, h1, h2⟩ := plain_items ops hplain .upper
+  rw [h1, h2, AztecCompose.segments_bytes, AztecCompose.latin1_render]
+
+theorem stuffWords_ne_nil (b : Nat) (bits : List Bool) : stuffWords b bits ≠ [] := by
+  unfold stuffWords
+  cases bits with
+  | nil => simp
+  | cons x xs =>
+    simp only [List.isEmpty_cons, Bool.false_eq_true, if_false, List.length_cons, stuffAux]
+    split
+    · simp
+    · split <;> simp
+
+/-- **Whole decoder on reference symbols** (the property without the image path), partial in one
+    named respect: the Reed-Solomon decoder is a parameter `rs` and the hypothesis `hrs` says that it
+    returns the reference codeword (data + check words as produced by the reference RS encoder)
+    unchanged — the statement `rs_decode_encode` of property C04.  Everything else is proved:
+    for each of the 36 sizes, every script that the tables allow and that fits, the decoder model
+    `Decoder.Decode(AztecDetectorResult{matrix, compact, #data words, layers})` on the reference
+    symbol returns the script's content.
+
+    Full statement (not proved here): the same with `rs := rsMirror` and without `hrs`, and with
+    ≤ ⌊ec/2⌋ damaged codewords; both are checked by differential execution against the real code
+    (harness suites `decode`, `decode-damaged`, oracle `damage`). -/
+theorem aztec_decode_ref_partial (T : Tables) (hT : T = refTables) (reg : Nat → Bool)
+    (rs : RSDecoder) (compact : Bool) (layers : Nat) (ops : List Op) (minCheck : Nat)
+    (sym : Symbol)
+    (henc : encodeOps compact layers ops minCheck = .ok sym) (hok : scriptOK reg ops)
+    (hrs : rs (wordSize layers) (sym.dataWords ++ sym.checkWords) sym.checkWords.length =
+        .ok (sym.dataWords ++ sym.checkWords)) :
+    ∃ d, decode T reg rs sym.matrix compact sym.dataWords.length layers = .ok d ∧
+      d.segs = segments ((scriptItems .upper ops).map toEvent) := by
+  subst hT
+  unfold encodeOps at henc
+  cases hs : encodeScript .upper ops with
+  | none => rw [hs] at henc; cases henc
+  | some hl =>
+    rw [hs] at henc
+    unfold encodeBits at henc
+    cases hlay : badLayers compact layers with
+    | true => simp only [hlay, if_true] at henc; cases henc
+    | false =>
+      simp only [hlay, Bool.false_eq_true, if_false] at henc
+      cases hfit : tooLong compact (totalBits compact layers / wordSize layers)
+          ((stuffWords (wordSize layers) hl).map fromBits).length minCheck with
+      | true => simp only [hfit, if_true] at henc; cases henc
+      | false =>
+        simp only [hfit, Bool.false_eq_true, if_false] at henc
+        cases hint : badShape (wordSize layers) (totalBits compact layers / wordSize layers -
+            ((stuffWords (wordSize layers) hl).map fromBits).length)
+            (rsParity (wordSize layers) (totalBits compact layers / wordSize layers -
+              ((stuffWords (wordSize layers) hl).map fromBits).length)
+              ((stuffWords (wordSize layers) hl).map fromBits)) with
+        | true => simp only [hint, if_true] at henc; cases henc
+        | false =>
+          simp only [hint, Bool.false_eq_true, if_false] at henc
+          injection henc with henc
+          subst henc
+          simp only at hrs ⊢
+          have hvalid : ValidSize compact layers := by
+            unfold ValidSize
+            unfold badLayers at hlay
+            cases compact <;> simp at hlay ⊢ <;> omega
+          have hfit1 : ((stuffWords (wordSize layers) hl).map fromBits).length + minCheck ≤
+              totalBits compact layers / wordSize layers := by
+            unfold tooLong at hfit
+            simp at hfit
+            simp
+            omega
+          have hne := stuffWords_ne_nil (wordSize layers) hl
+          have hwpos : 1 ≤ ((stuffWords (wordSize layers) hl).map fromBits).length := by
+            cases h : stuffWords (wordSize layers) hl with
+            | nil => exact absurd h hne
+            | cons _ _ => simp
+          have hfit' := hfit1
+          have hchk : (rsParity (wordSize layers)
+              (totalBits compact layers / wordSize layers -
+                ((stuffWords (wordSize layers) hl).map fromBits).length)
+              ((stuffWords (wordSize layers) hl).map fromBits)).length =
+              totalBits compact layers / wordSize layers -
+                ((stuffWords (wordSize layers) hl).map fromBits).length := by
+            unfold badShape at hint
+            simp at hint
+            simpa using hint.1
+          have hchklt : ∀ x ∈ rsParity (wordSize layers)
+              (totalBits compact layers / wordSize layers -
+                ((stuffWords (wordSize layers) hl).map fromBits).length)
+              ((stuffWords (wordSize layers) hl).map fromBits), x < 2 ^ wordSize layers := by
+            unfold badShape at hint
+            simp at hint
+            intro x hx
+            exact hint.2 x (by simpa using hx)
+          obtain ⟨k, c, hk, hcb, hbits⟩ := AztecCompose.correctBits_ref rs compact layers hl _
+            minCheck hfit' hchk hchklt (by omega) hrs
+          have hslen : (List.replicate (totalBits compact layers % wordSize layers) false ++
+              ((stuffWords (wordSize layers) hl).map fromBits ++ rsParity (wordSize layers)
+                (totalBits compact layers / wordSize layers -
+                  ((stuffWords (wordSize layers) hl).map fromBits).length)
+                ((stuffWords (wordSize layers) hl).map fromBits)).flatMap
+                  (toBits (wordSize layers))).length = totalBits compact layers := by
+            rw [List.length_append, List.length_replicate, AztecCompose.length_flatMap_toBits,
+              List.length_append, hchk]
+            have := Nat.mod_add_div (totalBits compact layers) (wordSize layers)
+            rw [Nat.mul_comm] at this
+            have : ((stuffWords (wordSize layers) hl).map fromBits).length +
+                (totalBits compact layers / wordSize layers -
+                  ((stuffWords (wordSize layers) hl).map fromBits).length) =
+                totalBits compact layers / wordSize layers := by omega
+            rw [this]; omega
+          have hext := aztec_layout_inv compact layers _
+            (modeMessage compact layers ((stuffWords (wordSize layers) hl).map fromBits).length)
+            hvalid hslen
+          have hhl := AztecCompose.hld_script reg ops hl hs hok k hk
+          refine ⟨⟨segments ((scriptItems .upper ops).map toEvent), toByteArray c.bits,
+            c.bits.length, c.ecLevel⟩, ?_, rfl⟩
+          unfold decode
+          rw [hext]
+          simp only [bind, Except.bind]
+          rw [hcb]
+          simp only [hbits, hhl]
+          rfl
+
 end Gzx.Properties.C11
